@@ -10,13 +10,16 @@ PATCH=$(ls "$WT"/patch_*.diff | head -1)
 DEMO=$(ls "$WT"/demo_*.py | head -1)
 cp "$PATCH" "$OUT/patch.diff"; cp "$DEMO" "$OUT/demo.py"
 cd "$WT" || exit 2
+git checkout -q -- src examples 2>/dev/null
+git apply "$OUT/patch.diff" || { echo "patch does not apply in worktree"; exit 2; }
 echo "== suite with the change"
-SUITE=$(/venv/bin/python -m pytest -q -p no:cacheprovider --timeout=900 --continue-on-collection-errors 2>&1 | tail -1)
+SUITE=$(PYTHONPATH="$WT/src" /venv/bin/python -m pytest -q -p no:cacheprovider --timeout=900 --continue-on-collection-errors 2>&1 | tail -1)
 echo "$SUITE"
+git checkout -q -- examples 2>/dev/null
 PYTHONPATH="$WT/src" /venv/bin/python "$DEMO" >/tmp/demo_with.txt 2>&1; WITH=$?
-git -C "$WT" stash -q
+git apply -R "$OUT/patch.diff"
 PYTHONPATH="$WT/src" /venv/bin/python "$DEMO" >/tmp/demo_without.txt 2>&1; WITHOUT=$?
-git -C "$WT" stash pop -q
+git apply "$OUT/patch.diff"
 echo "demo exit with change: $WITH, without: $WITHOUT"
 cd /verif
 git -C /repo apply "$OUT/patch.diff" || { echo "patch does not apply to /repo"; exit 2; }
